@@ -271,8 +271,12 @@ def weave_fn(sf, it, spec, log, where, canary=False):
         new = (spec.rename or spec.name) + ('__canary' if canary else '')
         ed.add(nm.start, nm.end, new)
     pre = ''
-    if spec.mode == 'assumed':
+    if spec.mode in ('assumed', 'assumed_sig'):
         pre += '#[verifier::external_body] '
+    if spec.mode == 'assumed_sig':
+        # the body cannot even be compiled inside the unit (external crates): it is dropped, only the signature and the
+        # assumed contract remain.  Reported as NOT verified.
+        ed.add(body_open.end, toks[it.body_hi].start, ' unimplemented!() ')
     if spec.mode == 'external':
         pre += '#[verifier::external] '
     for a in spec.attrs:
